@@ -1,4 +1,5 @@
 """C20 native side: real save / corrupt / restore sequences on Context.persist and Context.restore."""
+import itertools
 import os
 import pickle
 import random
@@ -53,8 +54,22 @@ def check_roundtrip(w):
                     return False, 'label %r attribute %s: %r != %r' % (l, a, getattr(m, a, None), getattr(n, a, None))
             if str(m.ref) != str(n.ref.textContent if hasattr(n.ref, 'textContent') else n.ref) and str(m.ref) != str(n.ref):
                 return False, 'label %r number %r != %r' % (l, m.ref, n.ref)
+        return True, ''
+    finally:
+        if os.path.exists(p):
+            os.unlink(p)
+
+
+def check_renderers(w):
+    """entries saved for other renderers survive a save by this renderer"""
+    d = mkdoc(w['labels'])
+    p = tempfile.mktemp()
+    try:
+        for r in w['order']:
+            d.context.persist(p, r)
         got = pickle.load(open(p, 'rb'))
-        return set(got) == {'R1', 'R2'}, 'per-renderer entries %r' % sorted(got)
+        ok = set(got) == set(w['order']) and all(set(w['labels']) <= set(got[r]) for r in w['order'])
+        return ok, 'after saving for %r the file holds %r' % (w['order'], {k: sorted(v) for k, v in got.items()})
     finally:
         if os.path.exists(p):
             os.unlink(p)
@@ -100,7 +115,8 @@ def small_file():
 
 
 CONTRACTS = {
-    'Context.persist': dict(check=check_file, gen=gen_file, small=small_file),
+    'Context.persist': dict(check=lambda w: check_renderers(w) if 'order' in w else check_file(w), gen=gen_file,
+                            small=lambda: itertools.chain(iter([dict(labels=['a'], order=['R1', 'R2']), dict(labels=['a', 'b'], order=['R1', 'R2', 'R1', 'R3'])]), small_file())),
     'Context.restore': dict(check=check_file, gen=gen_file),
     'roundtrip': dict(check=check_roundtrip, small=lambda: iter([dict(labels=['a']), dict(labels=['a', 'b', 'c']), dict(labels=[])])),
 }
